@@ -50,6 +50,19 @@ def Inv (s : St) : Prop :=
   ContentOk s.content ∧ StampOk s
 instance (s : St) : Decidable (Inv s) := by unfold Inv; infer_instance
 
+/-- What an assignment must leave in a filter list (specification of `ML.readd`): the assigned
+    items in order, every item once — later duplicates are dropped. -/
+def dedupFirst {α : Type} [DecidableEq α] : List α → List α
+  | [] => []
+  | x :: xs => x :: (dedupFirst xs).filter (fun y => decide (y ≠ x))
+
+/-- **The filter lists hold patterns, each once**: no list holds an item twice, and the regex
+    lists hold only compiled (valid) regular expressions.  (What D09d violated: `[None]`.) -/
+def FiltersOk (s : St) : Prop :=
+  s.exGlobs.Nodup ∧ s.inGlobs.Nodup ∧ s.exRegexs.Nodup ∧ s.inRegexs.Nodup ∧
+  s.exRegexs.all Rx.valid = true ∧ s.inRegexs.all Rx.valid = true
+instance (s : St) : Decidable (FiltersOk s) := by unfold FiltersOk; infer_instance
+
 /-- Hypothesis on one operation in its pre-state: the operation does not assign a bound across
     the other bound (open finding D09b).  `None` assigns the class default (for the minimum that
     is the smallest legal value, which can never lie above a legal maximum: no clause). -/
